@@ -68,7 +68,12 @@ func OpenNode(dir string, p refchain.Params, o NodeOpts) *Node {
 	if !o.DoNotRescan {
 		end, _ := ch.BlockTreeRoot.FindFarthestNode()
 		if end.Height > ch.LastBlock().Height {
-			ch.ParseTillBlock(end)
+			// mirrors NewChainExt (library mode)
+			if last := ch.LastBlock(); last.FindFirstFather(end) == last {
+				ch.ParseTillBlock(end)
+			} else {
+				ch.MoveToBlock(end)
+			}
 		}
 	}
 	return n
